@@ -78,6 +78,13 @@ SendOther(cls, to, pay) ==
              reply |-> [k |-> "transmit", pay |-> pay, to |-> to]]
   /\ UNCHANGED state
 
+(* send_data(): opaque application bytes to a peer; the agent only wraps   *)
+(* them in a transmission and keeps nothing.                               *)
+SendData(to, pay) ==
+  /\ act' = [name |-> "send", cls |-> "data", to |-> to, pay |-> pay,
+             reply |-> [k |-> "transmit", pay |-> pay, to |-> to]]
+  /\ UNCHANGED state
+
 (* handle_stun() with a success/error response.  integ is None (no         *)
 (* integrity attribute), a key (an attribute that validates under exactly  *)
 (* that key) or Corrupt.                                                   *)
